@@ -220,7 +220,7 @@ def tsan_leg(run, extra, keys):
             for blk in txt.split('==================')[1:]:
                 if 'WARNING: ThreadSanitizer' not in blk:
                     continue
-                if re.search(r'svgbob::|once_cell|svgbob_verif_driver', blk):
+                if re.search(r'(?<![\w-])svgbob::|once_cell::', blk):
                     own += 1
                     blocks.append(blk[:1500])
                 else:
